@@ -24,3 +24,5 @@ MANIFEST = {
     "level_note": "trusted: Kani's MIR->goto translation, CBMC, CaDiCaL; chrono's documented floor contract stands in for chrono itself; "
                   "calendar field getters and the chrono round trip are outside the claim",
 }
+
+READY = True
